@@ -30,7 +30,7 @@ var OCSPBehaviours = []string{
 	// forged
 	"forged-unrelated-nocert", "forged-unrelated-selfsigned", "forged-samename-ca", "forged-samename-ca-dressed", "forged-samename-delegate",
 	"forged-self", "forged-sibling", "forged-sibling-noeku", "forged-sibling-anyeku", "forged-delegate-badsig", "forged-delegate-certbroken",
-	"sig-zero", "sig-trunc", "forged-revoked-inv-after",
+	"sig-zero", "sig-trunc", "sig-empty", "forged-revoked-inv-after",
 	// misdirected
 	"other-serial", "sibling-good-replay",
 	// stale
@@ -288,10 +288,11 @@ func (k *Kit) build(beh string) netsim.Reply {
 		r.SignKey, r.Responder, r.Embed = aux.delegateKey, aux.brokenDelegate, []*x509.Certificate{aux.brokenDelegate}
 		r.Singles = []pki.OCSPSingle{k.single(pki.OCSPGood)}
 		return body(r)
-	case "sig-zero", "sig-trunc":
+	case "sig-zero", "sig-trunc", "sig-empty":
 		r := base()
 		r.ZeroSig = beh == "sig-zero"
 		r.TruncSig = beh == "sig-trunc"
+		r.EmptySig = beh == "sig-empty"
 		r.Singles = []pki.OCSPSingle{k.single(pki.OCSPGood)}
 		return body(r)
 	case "other-serial":
